@@ -43,6 +43,27 @@ def check(run: Run) -> None:
     run.rule("C19.R2", "every lowering branch is guarded by len(node.args) == 1 and by the absence of keywords")
     run.rule("C19.R3", "fold literal == acc+1 / acc+v / max / min on the integer grid (all orderings); seed is Constant(0); Aggregate(seq, seed, fold)")
     run.rule("C19.R4", "the sequence argument is visited; every other path returns generic_visit(node)")
+    # the parsed fold is handed on as it is: nothing in the module edits it (a parameter renamed without its body ..)
+    for g_ in [f_ for f_ in m.funcs.values() if f_.module is fi.module and not isinstance(f_.node, ast.Lambda)]:
+        parsed = set()
+        for n_ in own_nodes(g_):
+            if isinstance(n_, ast.Assign) and len(n_.targets) == 1 and isinstance(n_.targets[0], ast.Name) and any(isinstance(c_, ast.Call) and ast.unparse(c_.func) in ("ast.parse", "lambda_unwrap", "parse_as_ast") for c_ in ast.walk(n_.value)):
+                parsed.add(n_.targets[0].id)
+        for _ in range(3):
+            for n_ in own_nodes(g_):
+                if isinstance(n_, (ast.For, ast.comprehension)) and any(isinstance(x_, ast.Name) and x_.id in parsed for x_ in ast.walk(n_.iter)):
+                    parsed |= {x_.id for x_ in ast.walk(n_.target) if isinstance(x_, ast.Name)}
+                if isinstance(n_, ast.Assign) and len(n_.targets) == 1 and isinstance(n_.targets[0], ast.Name) and isinstance(n_.value, (ast.Attribute, ast.Subscript)) and any(isinstance(x_, ast.Name) and x_.id in parsed for x_ in ast.walk(n_.value)):
+                    parsed.add(n_.targets[0].id)
+        for n_ in own_nodes(g_):
+            tgts = n_.targets if isinstance(n_, ast.Assign) else ([n_.target] if isinstance(n_, (ast.AugAssign, ast.AnnAssign)) else [])
+            for t_ in tgts:
+                if isinstance(t_, (ast.Attribute, ast.Subscript)):
+                    b_ = t_
+                    while isinstance(b_, (ast.Attribute, ast.Subscript)):
+                        b_ = b_.value
+                    if isinstance(b_, ast.Name) and b_.id in parsed:
+                        run.fail("C19.R3", g_, n_, f"{g_.name} edits the fold lambda after it was parsed ({ast.unparse(t_)[:50]} is assigned): what reaches Aggregate is no longer the fold the literal spells - a parameter renamed without its body leaves the body's `v` / `acc` referring to an outer variable (lambda v: Sum(v) becomes Aggregate(v, 0, lambda acc, v_agg: acc + v))", "hand the parsed literal on as it is", key="fold lambda edited after parsing")
     odd = sorted(n for n in list(cls.methods) + list(cls.class_assigns) if n in ("visit", "generic_visit"))
     run.check(not odd, "C19.R4", fi, cls.node, "the traversal protocol is the stdlib's (visit / generic_visit are not overridden)", f"aggregate_node_transformer overrides {odd}: the traversal no longer reaches every node, so some shortcut calls stay un-lowered", "only visit_<Kind> handlers")
     # any further visit_<Kind> handler (a method, or a class-level alias of one) must hand back its node with everything below it visited
